@@ -135,11 +135,29 @@ def run_shard(modname, tier, seed, shard, nshards, replay_case=None):
                 if check.hang_is_violation:
                     outcome = {'kind': 'failing-input', 'case': case, 'monitor': [f'no result within {check.case_timeout}s (hang)'],
                                'key': 'hang', 'observed': 'timeout', 'model_output': None, 'origin': origin}
-                else:
+                    break
+                # not a property about termination: a case that is merely SLOW (a loaded machine, a large image) must not turn into
+                # a verdict or an error.  The case is written out, the model driver is restarted (the alarm may have interrupted an
+                # exchange with it) and the case is run once more with six times the limit; only a second expiry is reported
+                slow_path = os.path.join(VERIF, 'replays', f'{check.prop}-slow-{case_hash(case)}.json')
+                try:
+                    dump_json({'property': check.prop, 'kind': 'slow-case', 'case': case, 'limit_s': check.case_timeout}, slow_path)
+                except Exception:   # noqa
+                    pass
+                try:
+                    drv.close()
+                except Exception:   # noqa
+                    pass
+                drv = Driver()
+                try:
+                    res = run_with_timeout(check.run_case, 6 * check.case_timeout, case, drv)
+                    stats['dist']['slow case (finished on the retry with 6x the limit)'] = \
+                        stats['dist'].get('slow case (finished on the retry with 6x the limit)', 0) + 1
+                except CaseTimeout:
                     outcome = {'kind': 'harness-error', 'case': case,
-                               'trace': f'case did not finish within {check.case_timeout}s (implementation hang?); '
-                                        f'case hash {case_hash(case)}'}
-                break
+                               'trace': f'case did not finish within {check.case_timeout}s nor within {6 * check.case_timeout}s on the '
+                                        f'retry (implementation hang?); case written to {slow_path}'}
+                    break
             except Exception as ex:     # noqa
                 # an exception the harness did not anticipate: when it was raised INSIDE pyctr (innermost frame under the
                 # repository) the implementation failed on an operation that succeeds on the tree the check was built against -
